@@ -20,6 +20,8 @@ structure DState where
   threads : Nat := 1
   q : List Nat := []
   sess : Sess := { disk := Disk.empty }
+  /-- the last build on the directory ran to completion (the property speaks about such indexes only) -/
+  complete : Bool := false
 
 def parseColl (s : String) : Coll :=
   let ds := (s.splitOn "/").map natList
@@ -50,7 +52,7 @@ def optNat : Option Nat → String
 def showScan (d : Disk) : String :=
   "H=" ++ showGraph d.hashes ++ " P=" ++ (match d.processed with | none => "none" | some p => showNats p)
     ++ " M=" ++ optNat d.version ++ "/" ++ optNat (d.manifest.map List.length) ++ "/" ++ specStr d.spec
-    ++ " X=" ++ toString d.storage.length
+    ++ " X=" ++ toString d.storage.keys.length
 
 def showCounter (c : List (Nat × Nat)) : String :=
   if c.isEmpty then "-" else ",".intercalate (c.map (fun e => toString e.1 ++ ":" ++ toString e.2))
@@ -76,8 +78,10 @@ def answers (st : DState) (h : Handle) : String :=
     match h.manifest[i]?, sig i with
     | some loc, some sk => some (loc, sk)
     | _, _ => none)
-  "C=" ++ showCounter (counterFor d.hashes st.q) ++ " G=" ++ showGather (gather d.hashes sig st.q)
-    ++ " S=" ++ showSigs sigs
+  match gather d.hashes sig st.q with
+  | none => "PANIC"      -- `sig_for_dataset` of an id the manifest does not have: index out of bounds
+  | some g =>
+    "C=" ++ showCounter (counterFor d.hashes st.q) ++ " G=" ++ showGather (some g) ++ " S=" ++ showSigs sigs
 
 def observe (st : DState) : String :=
   let ans := match st.sess.handle with
@@ -85,7 +89,7 @@ def observe (st : DState) : String :=
     | none => match openIdx rtId st.sess.disk true with
       | some h => answers st h
       | none => "open-err"
-  showScan st.sess.disk ++ " " ++ ans
+  if ans == "PANIC" then "PANIC" else showScan st.sess.disk ++ " " ++ ans
 
 /-- the reference observation: semantic fields from the dataset lists, incidental ones from the model -/
 def refObserve (st : DState) : String :=
@@ -96,7 +100,7 @@ def refObserve (st : DState) : String :=
   let g := refGather c st.q (n + 1) (List.range n) st.q []
   "H=" ++ (if h.isEmpty then "-" else ";".intercalate h)
     ++ " P=" ++ (if n == 0 then "none" else showNats (List.range n))
-    ++ " M=1/" ++ toString n ++ "/" ++ specStr d.spec ++ " X=" ++ toString d.storage.length
+    ++ " M=1/" ++ toString n ++ "/" ++ specStr d.spec ++ " X=" ++ toString d.storage.keys.length
     ++ " C=" ++ showCounter (refCounter c st.q) ++ " G=" ++ showGather (some g)
     ++ " S=" ++ showSigs (c.map (fun ds => some (ds.loc, ds.hashes)))
 
@@ -141,29 +145,29 @@ def stepC10 (st : DState) (ws : List String) : DState × Resp :=
     | none => (st, { model := "child-failed:Some(101)" })
     | some log =>
       let d := crashAt st.sess.disk log n.toNat!
-      let st := { st with sess := { st.sess with disk := d, handle := none } }
+      let st := { st with sess := { st.sess with disk := d, handle := none }, complete := decide (log.length ≤ n.toNat!) }
       if st.threads == 1 then (st, { model := showScan d }) else (st, { model := "-", spec := "inv-ok" })
   | ["crashc", _] =>
     match buildLog st with
     | none => (st, { model := "child-failed:Some(101)" })
     | some log =>
       let d := run st.sess.disk log
-      ({ st with sess := { st.sess with disk := d, handle := none } }, { model := showScan d })
+      ({ st with sess := { st.sess with disk := d, handle := none }, complete := true }, { model := showScan d })
   | [op] =>
     if op == "resume" || op == "resumec" then
       match buildLog st with
       | none => (st, { model := "err" })
       | some log =>
-        let st := { st with sess := { st.sess with disk := run st.sess.disk log, handle := none } }
+        let st := { st with sess := { st.sess with disk := run st.sess.disk log, handle := none }, complete := true }
         (st, { model := observe st, spec := refObserve st })
-    else if op == "obs" then (st, { model := observe st, spec := refObserve st })
+    else if op == "obs" then (st, { model := observe st, spec := if st.complete then refObserve st else "-" })
     else (st, { model := "bad-op" })
   | ["reopen", seq] =>
     let ops := (seq.splitOn ",").filterMap parseOp
     let (s', rs) := reopenSeq rtId (world st.coll) st.sess ops
     let st := { st with sess := s' }
     let r := ",".intercalate (rs.map showRes)
-    (st, { model := r ++ "|" ++ observe st, spec := r ++ "|" ++ refObserve st })
+    (st, { model := r ++ "|" ++ observe st, spec := if st.complete then r ++ "|" ++ refObserve st else "-" })
   | _ => (st, { model := "bad-op" })
 
 def main : IO Unit := Driver.run ({} : DState) stepC10
